@@ -1,3 +1,323 @@
+/-
+  Lemmas for C11: the lifetime invariant of `RotoV.Lifetime` and its
+  preservation by every operation, for every `Facts` that is `Good`
+  (a decidable condition the *generated* facts are tested against in
+  Props/C11.lean).  Core Lean only.
+-/
 import RotoV.Model.Lifetime
+
 namespace RotoV.Lifetime
+
+/-! ### list facts -/
+
+theorem countP_eraseIdx_add {α : Type} (p : α → Bool) :
+    ∀ (l : List α) (i : Nat) (h : i < l.length),
+      (l.eraseIdx i).countP p + (if p l[i] then 1 else 0) = l.countP p
+  | [], i, h => by simp at h
+  | a :: l, 0, _ => by simp [List.countP_cons]
+  | a :: l, i + 1, h => by
+    have ih := countP_eraseIdx_add p l i (by simpa using h)
+    simp only [List.eraseIdx_cons_succ, List.countP_cons, List.getElem_cons_succ]
+    omega
+
+theorem countP_erase_add (p : Nat → Bool) :
+    ∀ (l : List Nat) (k : Nat), k ∈ l →
+      (l.erase k).countP p + (if p k then 1 else 0) = l.countP p
+  | [], k, h => by simp at h
+  | a :: l, k, h => by
+    by_cases hak : a = k
+    · subst hak; simp [List.countP_cons]
+    · have hk : k ∈ l := by
+        rcases List.mem_cons.1 h with h | h
+        · exact absurd h.symm hak
+        · exact h
+      have ih := countP_erase_add p l k hk
+      have : (a == k) = false := by simpa using hak
+      simp only [List.erase_cons, this, List.countP_cons]
+      simp only [Bool.false_eq_true, if_false, List.countP_cons]
+      omega
+
+theorem upd_same {α : Type} (f : Nat → α) (k : Nat) (v : α) : upd f k v k = v := by simp [upd]
+theorem upd_other {α : Type} (f : Nat → α) (k j : Nat) (v : α) (h : j ≠ k) : upd f k v j = f j := by
+  simp [upd, h]
+
+/-! ### the admissible facts -/
+
+/-- field orders in which the script constants are dropped before the JIT module -/
+def goodOrders : List (List Field) :=
+  [ [.constants, .rotoConstants, .registeredFns, .jit], [.constants, .rotoConstants, .jit, .registeredFns],
+    [.constants, .registeredFns, .rotoConstants, .jit], [.rotoConstants, .constants, .registeredFns, .jit],
+    [.rotoConstants, .constants, .jit, .registeredFns], [.rotoConstants, .registeredFns, .constants, .jit],
+    [.rotoConstants, .registeredFns, .jit, .constants], [.rotoConstants, .jit, .constants, .registeredFns],
+    [.rotoConstants, .jit, .registeredFns, .constants], [.registeredFns, .constants, .rotoConstants, .jit],
+    [.registeredFns, .rotoConstants, .constants, .jit], [.registeredFns, .rotoConstants, .jit, .constants] ]
+
+/-- what the theorems need from the implementation's declarations -/
+def goodB (F : Facts) : Bool :=
+  F.handleHoldsArc && F.constsCloned && F.fnsCloned
+    && decide (F.freeSites = [FreeSite.wrapperDrop]) && goodOrders.contains F.moduleFields
+
+structure Good (F : Facts) : Prop where
+  holds : F.handleHoldsArc = true
+  consts : F.constsCloned = true
+  fns : F.fnsCloned = true
+  sites : F.freeSites = [FreeSite.wrapperDrop]
+  order : F.moduleFields ∈ goodOrders
+
+theorem good_of_goodB {F : Facts} (h : goodB F = true) : Good F := by
+  simp only [goodB, Bool.and_eq_true, decide_eq_true_eq, List.contains_iff_mem] at h
+  exact ⟨h.1.1.1.1, h.1.1.1.2, h.1.1.2, h.1.2, h.2⟩
+
+/-! ### primitive effects, projection by projection -/
+
+/-- how often `dropScriptConsts k n` releases `x` -/
+def scHit (k n : Nat) : Res → Nat
+  | .scriptConst k' c => if k' = k ∧ c < n then 1 else 0
+  | _ => 0
+
+section prim
+variable (s : St) (k r n : Nat)
+
+@[simp] theorem release_relCount (x y : Res) :
+    (release x s).relCount y = s.relCount y + (if x = y then 1 else 0) := by
+  simp [release, St.relCount, List.count_cons]
+
+-- decConst
+@[simp] theorem decConst_constRc : (decConst r s).constRc = upd s.constRc r (s.constRc r - 1) := by
+  unfold decConst; split <;> rfl
+@[simp] theorem decConst_relCount (x : Res) : (decConst r s).relCount x
+    = s.relCount x + (if s.constRc r - 1 = 0 ∧ x = .regConst r then 1 else 0) := by
+  unfold decConst
+  by_cases h : s.constRc r - 1 = 0
+  · simp only [h, if_true, release_relCount, true_and]
+    by_cases hx : x = .regConst r
+    · subst hx; simp [St.relCount]
+    · have : ¬ (Res.regConst r = x) := fun e => hx e.symm
+      simp [St.relCount, hx, this]
+  · simp [h, St.relCount]
+@[simp] theorem decConst_closRc : (decConst r s).closRc = s.closRc := by unfold decConst; split <;> rfl
+@[simp] theorem decConst_mapped : (decConst r s).mapped = s.mapped := by unfold decConst; split <;> rfl
+@[simp] theorem decConst_info : (decConst r s).info = s.info := by unfold decConst; split <;> rfl
+@[simp] theorem decConst_faults : (decConst r s).faults = s.faults := by unfold decConst; split <;> rfl
+@[simp] theorem decConst_alive : (decConst r s).alive = s.alive := by unfold decConst; split <;> rfl
+@[simp] theorem decConst_strong : (decConst r s).strong = s.strong := by unfold decConst; split <;> rfl
+@[simp] theorem decConst_pkgs : (decConst r s).pkgs = s.pkgs := by unfold decConst; split <;> rfl
+@[simp] theorem decConst_hs : (decConst r s).hs = s.hs := by unfold decConst; split <;> rfl
+@[simp] theorem decConst_rts : (decConst r s).rts = s.rts := by unfold decConst; split <;> rfl
+@[simp] theorem decConst_built : (decConst r s).built = s.built := by unfold decConst; split <;> rfl
+@[simp] theorem decConst_rtConst : (decConst r s).rtConst = s.rtConst := by unfold decConst; split <;> rfl
+@[simp] theorem decConst_rtClos : (decConst r s).rtClos = s.rtClos := by unfold decConst; split <;> rfl
+@[simp] theorem decConst_constEver : (decConst r s).constEver = s.constEver := by unfold decConst; split <;> rfl
+@[simp] theorem decConst_closEver : (decConst r s).closEver = s.closEver := by unfold decConst; split <;> rfl
+@[simp] theorem decConst_compiled : (decConst r s).compiled = s.compiled := by unfold decConst; split <;> rfl
+
+-- decClos
+@[simp] theorem decClos_closRc : (decClos r s).closRc = upd s.closRc r (s.closRc r - 1) := by
+  unfold decClos; split <;> rfl
+@[simp] theorem decClos_relCount (x : Res) : (decClos r s).relCount x
+    = s.relCount x + (if s.closRc r - 1 = 0 ∧ x = .closure r then 1 else 0) := by
+  unfold decClos
+  by_cases h : s.closRc r - 1 = 0
+  · simp only [h, if_true, release_relCount, true_and]
+    by_cases hx : x = .closure r
+    · subst hx; simp [St.relCount]
+    · have : ¬ (Res.closure r = x) := fun e => hx e.symm
+      simp [St.relCount, hx, this]
+  · simp [h, St.relCount]
+@[simp] theorem decClos_constRc : (decClos r s).constRc = s.constRc := by unfold decClos; split <;> rfl
+@[simp] theorem decClos_mapped : (decClos r s).mapped = s.mapped := by unfold decClos; split <;> rfl
+@[simp] theorem decClos_info : (decClos r s).info = s.info := by unfold decClos; split <;> rfl
+@[simp] theorem decClos_faults : (decClos r s).faults = s.faults := by unfold decClos; split <;> rfl
+@[simp] theorem decClos_alive : (decClos r s).alive = s.alive := by unfold decClos; split <;> rfl
+@[simp] theorem decClos_strong : (decClos r s).strong = s.strong := by unfold decClos; split <;> rfl
+@[simp] theorem decClos_pkgs : (decClos r s).pkgs = s.pkgs := by unfold decClos; split <;> rfl
+@[simp] theorem decClos_hs : (decClos r s).hs = s.hs := by unfold decClos; split <;> rfl
+@[simp] theorem decClos_rts : (decClos r s).rts = s.rts := by unfold decClos; split <;> rfl
+@[simp] theorem decClos_built : (decClos r s).built = s.built := by unfold decClos; split <;> rfl
+@[simp] theorem decClos_rtConst : (decClos r s).rtConst = s.rtConst := by unfold decClos; split <;> rfl
+@[simp] theorem decClos_rtClos : (decClos r s).rtClos = s.rtClos := by unfold decClos; split <;> rfl
+@[simp] theorem decClos_constEver : (decClos r s).constEver = s.constEver := by unfold decClos; split <;> rfl
+@[simp] theorem decClos_closEver : (decClos r s).closEver = s.closEver := by unfold decClos; split <;> rfl
+@[simp] theorem decClos_compiled : (decClos r s).compiled = s.compiled := by unfold decClos; split <;> rfl
+
+-- freeCode on mapped code
+theorem freeCode_of_mapped (h : s.mapped k = true) :
+    freeCode k s = release (.code k) { s with mapped := upd s.mapped k false } := by
+  simp [freeCode, h]
+
+end prim
+
+/-- everything `dropScriptConsts` leaves alone, and what it does while Code k is mapped -/
+theorem dropScriptConsts_spec (k : Nat) : ∀ (n : Nat) (s : St),
+    let s' := dropScriptConsts k n s
+    s'.mapped = s.mapped ∧ s'.info = s.info ∧ s'.constRc = s.constRc ∧ s'.closRc = s.closRc
+      ∧ s'.alive = s.alive ∧ s'.strong = s.strong ∧ s'.pkgs = s.pkgs ∧ s'.hs = s.hs ∧ s'.rts = s.rts
+      ∧ s'.built = s.built ∧ s'.rtConst = s.rtConst ∧ s'.rtClos = s.rtClos ∧ s'.constEver = s.constEver
+      ∧ s'.closEver = s.closEver ∧ s'.compiled = s.compiled
+      ∧ (∀ x, s'.relCount x = s.relCount x + scHit k n x)
+      ∧ (s.mapped k = true → s'.faults = s.faults)
+  | 0, s => by
+    simp only [dropScriptConsts, true_and, implies_true, and_true]
+    intro x; cases x <;> simp [scHit]
+  | n + 1, s => by
+    have ih := dropScriptConsts_spec k n s
+    simp only at ih
+    obtain ⟨h1, h2, h3, h4, h5, h6, h7, h8, h9, h10, h11, h12, h13, h14, h15, h16, h17⟩ := ih
+    simp only [dropScriptConsts]
+    by_cases hm : (dropScriptConsts k n s).mapped k = true
+    · simp only [hm, if_true, release]
+      refine ⟨h1, h2, h3, h4, h5, h6, h7, h8, h9, h10, h11, h12, h13, h14, h15, ?_, ?_⟩
+      · intro x
+        have := h16 x
+        simp only [St.relCount] at this ⊢
+        rw [List.count_cons, this]
+        cases x <;> simp [scHit]
+        rename_i k' c
+        by_cases e1 : k = k' <;> by_cases e2 : n = c
+        · subst e1 e2; simp
+        · subst e1; simp [e2]; have : ¬ (c = n) := fun e => e2 e.symm
+          by_cases hc : c < n
+          · have : c < n + 1 := by omega
+            simp [hc, this]
+          · have : ¬ c < n + 1 := by omega
+            simp [hc, this]
+        · have : ¬ (k' = k) := fun e => e1 e.symm
+          simp [e1, this]
+        · have : ¬ (k' = k) := fun e => e1 e.symm
+          simp [e1, this]
+      · intro hmk; exact h17 hmk
+    · have hmf : (dropScriptConsts k n s).mapped k = false := by simpa using hm
+      refine ⟨?_, ?_, ?_, ?_, ?_, ?_, ?_, ?_, ?_, ?_, ?_, ?_, ?_, ?_, ?_, ?_, ?_⟩ <;>
+        simp only [hmf, Bool.false_eq_true, if_false, release, fault]
+      all_goals first
+        | assumption
+        | skip
+      · intro x
+        have := h16 x
+        simp only [St.relCount] at this ⊢
+        rw [List.count_cons, this]
+        cases x <;> simp [scHit]
+        rename_i k' c
+        by_cases e1 : k = k' <;> by_cases e2 : n = c
+        · subst e1 e2; simp
+        · subst e1; simp [e2]
+          by_cases hc : c < n
+          · have : c < n + 1 := by omega
+            simp [hc, this]
+          · have : ¬ c < n + 1 := by omega
+            simp [hc, this]
+        · have : ¬ (k' = k) := fun e => e1 e.symm
+          simp [e1, this]
+        · have : ¬ (k' = k) := fun e => e1 e.symm
+          simp [e1, this]
+      · intro hmk; rw [h1] at hmf; rw [hmk] at hmf; cases hmf
+
+section dsc
+variable (s : St) (k n : Nat)
+@[simp] theorem dropScriptConsts_mapped : (dropScriptConsts k n s).mapped = s.mapped := (dropScriptConsts_spec k n s).1
+@[simp] theorem dropScriptConsts_info : (dropScriptConsts k n s).info = s.info := (dropScriptConsts_spec k n s).2.1
+@[simp] theorem dropScriptConsts_constRc : (dropScriptConsts k n s).constRc = s.constRc := (dropScriptConsts_spec k n s).2.2.1
+@[simp] theorem dropScriptConsts_closRc : (dropScriptConsts k n s).closRc = s.closRc := (dropScriptConsts_spec k n s).2.2.2.1
+@[simp] theorem dropScriptConsts_alive : (dropScriptConsts k n s).alive = s.alive := (dropScriptConsts_spec k n s).2.2.2.2.1
+@[simp] theorem dropScriptConsts_strong : (dropScriptConsts k n s).strong = s.strong := (dropScriptConsts_spec k n s).2.2.2.2.2.1
+@[simp] theorem dropScriptConsts_pkgs : (dropScriptConsts k n s).pkgs = s.pkgs := (dropScriptConsts_spec k n s).2.2.2.2.2.2.1
+@[simp] theorem dropScriptConsts_hs : (dropScriptConsts k n s).hs = s.hs := (dropScriptConsts_spec k n s).2.2.2.2.2.2.2.1
+@[simp] theorem dropScriptConsts_rts : (dropScriptConsts k n s).rts = s.rts := (dropScriptConsts_spec k n s).2.2.2.2.2.2.2.2.1
+@[simp] theorem dropScriptConsts_built : (dropScriptConsts k n s).built = s.built := (dropScriptConsts_spec k n s).2.2.2.2.2.2.2.2.2.1
+@[simp] theorem dropScriptConsts_rtConst : (dropScriptConsts k n s).rtConst = s.rtConst := (dropScriptConsts_spec k n s).2.2.2.2.2.2.2.2.2.2.1
+@[simp] theorem dropScriptConsts_rtClos : (dropScriptConsts k n s).rtClos = s.rtClos := (dropScriptConsts_spec k n s).2.2.2.2.2.2.2.2.2.2.2.1
+@[simp] theorem dropScriptConsts_constEver : (dropScriptConsts k n s).constEver = s.constEver := (dropScriptConsts_spec k n s).2.2.2.2.2.2.2.2.2.2.2.2.1
+@[simp] theorem dropScriptConsts_closEver : (dropScriptConsts k n s).closEver = s.closEver := (dropScriptConsts_spec k n s).2.2.2.2.2.2.2.2.2.2.2.2.2.1
+@[simp] theorem dropScriptConsts_compiled : (dropScriptConsts k n s).compiled = s.compiled := (dropScriptConsts_spec k n s).2.2.2.2.2.2.2.2.2.2.2.2.2.2.1
+@[simp] theorem dropScriptConsts_relCount (x : Res) : (dropScriptConsts k n s).relCount x = s.relCount x + scHit k n x :=
+  (dropScriptConsts_spec k n s).2.2.2.2.2.2.2.2.2.2.2.2.2.2.2.1 x
+theorem dropScriptConsts_faults (h : s.mapped k = true) : (dropScriptConsts k n s).faults = s.faults :=
+  (dropScriptConsts_spec k n s).2.2.2.2.2.2.2.2.2.2.2.2.2.2.2.2 h
+end dsc
+
+section fc
+variable (s : St) (k : Nat)
+@[simp] theorem freeCode_info : (freeCode k s).info = s.info := by unfold freeCode; split <;> rfl
+@[simp] theorem freeCode_constRc : (freeCode k s).constRc = s.constRc := by unfold freeCode; split <;> rfl
+@[simp] theorem freeCode_closRc : (freeCode k s).closRc = s.closRc := by unfold freeCode; split <;> rfl
+@[simp] theorem freeCode_alive : (freeCode k s).alive = s.alive := by unfold freeCode; split <;> rfl
+@[simp] theorem freeCode_strong : (freeCode k s).strong = s.strong := by unfold freeCode; split <;> rfl
+@[simp] theorem freeCode_pkgs : (freeCode k s).pkgs = s.pkgs := by unfold freeCode; split <;> rfl
+@[simp] theorem freeCode_hs : (freeCode k s).hs = s.hs := by unfold freeCode; split <;> rfl
+@[simp] theorem freeCode_rts : (freeCode k s).rts = s.rts := by unfold freeCode; split <;> rfl
+@[simp] theorem freeCode_built : (freeCode k s).built = s.built := by unfold freeCode; split <;> rfl
+@[simp] theorem freeCode_rtConst : (freeCode k s).rtConst = s.rtConst := by unfold freeCode; split <;> rfl
+@[simp] theorem freeCode_rtClos : (freeCode k s).rtClos = s.rtClos := by unfold freeCode; split <;> rfl
+@[simp] theorem freeCode_constEver : (freeCode k s).constEver = s.constEver := by unfold freeCode; split <;> rfl
+@[simp] theorem freeCode_closEver : (freeCode k s).closEver = s.closEver := by unfold freeCode; split <;> rfl
+@[simp] theorem freeCode_compiled : (freeCode k s).compiled = s.compiled := by unfold freeCode; split <;> rfl
+theorem freeCode_mapped (h : s.mapped k = true) : (freeCode k s).mapped = upd s.mapped k false := by
+  simp [freeCode, h, release]
+theorem freeCode_faults (h : s.mapped k = true) : (freeCode k s).faults = s.faults := by
+  simp [freeCode, h, release]
+theorem freeCode_relCount (h : s.mapped k = true) (x : Res) :
+    (freeCode k s).relCount x = s.relCount x + (if x = .code k then 1 else 0) := by
+  simp only [freeCode, h, if_true, release_relCount]
+  by_cases hx : x = .code k
+  · subst hx; simp [St.relCount]
+  · have : ¬ (Res.code k = x) := fun e => hx e.symm
+    simp [St.relCount, hx, this]
+end fc
+
+/-! the same release counts, phrased on the log itself (these fire after `St.relCount` is unfolded) -/
+@[simp] theorem decConst_count (s : St) (r : Nat) (x : Res) : List.count x (decConst r s).released
+    = List.count x s.released + (if s.constRc r - 1 = 0 ∧ x = .regConst r then 1 else 0) := by
+  simpa [St.relCount] using decConst_relCount s r x
+@[simp] theorem decClos_count (s : St) (r : Nat) (x : Res) : List.count x (decClos r s).released
+    = List.count x s.released + (if s.closRc r - 1 = 0 ∧ x = .closure r then 1 else 0) := by
+  simpa [St.relCount] using decClos_relCount s r x
+@[simp] theorem dropScriptConsts_count (s : St) (k n : Nat) (x : Res) :
+    List.count x (dropScriptConsts k n s).released = List.count x s.released + scHit k n x := by
+  simpa [St.relCount] using dropScriptConsts_relCount s k n x
+theorem freeCode_count (s : St) (k : Nat) (h : s.mapped k = true) (x : Res) :
+    List.count x (freeCode k s).released = List.count x s.released + (if x = .code k then 1 else 0) := by
+  simpa [St.relCount] using freeCode_relCount s k h x
+
+/-! ### the drop of a module, summarised -/
+
+/-- what `dropModule` does to a state in which Code k is mapped, whatever the
+    (admissible) field order -/
+structure DropSpec (k : Nat) (s s' : St) : Prop where
+  rts : s'.rts = s.rts
+  built : s'.built = s.built
+  rtConst : s'.rtConst = s.rtConst
+  rtClos : s'.rtClos = s.rtClos
+  constEver : s'.constEver = s.constEver
+  closEver : s'.closEver = s.closEver
+  compiled : s'.compiled = s.compiled
+  info : s'.info = s.info
+  strong : s'.strong = s.strong
+  pkgs : s'.pkgs = s.pkgs
+  hs : s'.hs = s.hs
+  constRc : s'.constRc = if (s.info k).keepConst then
+      upd s.constRc (s.info k).rt (s.constRc (s.info k).rt - 1) else s.constRc
+  closRc : s'.closRc = if (s.info k).keepClos then
+      upd s.closRc (s.info k).rt (s.closRc (s.info k).rt - 1) else s.closRc
+  mapped : s'.mapped = upd s.mapped k false
+  alive : s'.alive = s.alive.erase k
+  faults : s'.faults = s.faults
+  rel : ∀ x, s'.relCount x = s.relCount x + (if x = .code k then 1 else 0) + scHit k (s.info k).nconst x
+      + (if (s.info k).keepConst = true ∧ s.constRc (s.info k).rt - 1 = 0 ∧ x = .regConst (s.info k).rt then 1 else 0)
+      + (if (s.info k).keepClos = true ∧ s.closRc (s.info k).rt - 1 = 0 ∧ x = .closure (s.info k).rt then 1 else 0)
+
+theorem dropModule_spec {F : Facts} (hG : Good F) (k : Nat) (s : St) (hm : s.mapped k = true) :
+    DropSpec k s (dropModule F k s) := by
+  have hsites := hG.sites
+  have hord := hG.order
+  have hnm : FreeSite.moduleDataDrop ∉ F.freeSites := by rw [hsites]; decide
+  have hw : FreeSite.wrapperDrop ∈ F.freeSites := by rw [hsites]; decide
+  unfold dropModule
+  simp only [hnm, if_false]
+  simp only [goodOrders, List.mem_cons, List.not_mem_nil, or_false] at hord
+  cases hkc : (s.info k).keepConst <;> cases hkf : (s.info k).keepClos <;>
+  rcases hord with h | h | h | h | h | h | h | h | h | h | h | h <;> rw [h] <;>
+  constructor <;>
+  simp [St.relCount, dropFields, dropField, hw, hkc, hkf, hm, freeCode_mapped, freeCode_faults, freeCode_count,
+    dropScriptConsts_faults, Nat.add_comm, Nat.add_left_comm, Nat.add_assoc]
+
 end RotoV.Lifetime
